@@ -95,7 +95,7 @@ func c03GenR(t *rapid.T) c03RCase {
 	var n int
 	switch k := rapid.IntRange(0, 19).Draw(t, "nk"); {
 	case k == 0:
-		n = []int{189, 190, 191, 192}[h.Expand(rapid.Uint64().Draw(t, "nseed"), 1)[0]%4]
+		n = []int{189, 190, 191, 192}[h.C03UniformIndex(t, 4, "n")]
 	case k < 12:
 		n = rapid.SampledFrom(h.C03SmallN).Draw(t, "n")
 	default:
@@ -133,8 +133,8 @@ func c03CheckR(c c03RCase) h.Result {
 	if !ok {
 		return r.Result()
 	}
-	New := curve.NewRistrettoPoint
-	cp := func(x *curve.RistrettoPoint) *curve.RistrettoPoint { return New().Set(x) }
+	cp := func(x *curve.RistrettoPoint) *curve.RistrettoPoint { return curve.NewRistrettoPoint().Set(x) }
+	New := func() *curve.RistrettoPoint { return cp(curve.RISTRETTO_BASEPOINT_POINT) } // stale receiver
 	pEnc, qEnc := ref.RistEncode(pr), ref.RistEncode(qr)
 	same := bytes.Equal(pEnc, qEnc)
 	if same != ref.RistEqual(pr, qr) {
